@@ -148,6 +148,13 @@ MayRefuse(op, x, y) ==
   op = "MulFood" /\ (\/ (x.sh = "S" /\ y.sh = "L" /\ ~IsRatio(x) /\ IsRatio(y))
                      \/ (x.sh = "L" /\ y.sh = "S" /\ ~IsRatio(y) /\ IsRatio(x)))
 
+\* construction of a series: whichever of the three labels already carry the series suffix, the result is WellFormed -
+\* all three labels end in " each month" and the label list agrees with them
+ConstructCases == {[lab |-> l, given |-> g, n |-> n] : l \in Bases, g \in [1..3 -> BOOLEAN], n \in SeriesNums}
+Constructed(c) == Val("L", c.lab, " each month", c.n)
+ASSUME \A c \in ConstructCases : WellFormed(Constructed(c))
+ASSUME Emit => \A c \in ConstructCases : PrintT(ToJson([op |-> "Construct", x |-> c, y |-> c, r |-> Constructed(c), mayRefuse |-> FALSE]))
+
 \* ------------------------------------------------------------------ machine
 Init == a \in Universe /\ b \in Universe /\ depth = 0
 
